@@ -199,6 +199,13 @@ def check_program(p, rep, idx):
                         bad = True
                     if star == 'args' and q.kind in (q.POSITIONAL_ONLY, q.VAR_POSITIONAL, q.POSITIONAL_OR_KEYWORD):
                         bad = True
+                    if bad and p.taint[0] == 'inline' and p.context in ('nested_def', 'lambda', 'nested_decoy', 'lambda_decoy'):
+                        # known finding: a mutation inside a nested function / lambda never
+                        # reaches the enclosing scope's marker
+                        viol.append(('C05:nested-scope-mutation',
+                                     '%s is mutated inside a nested function or lambda that runs before another forwarding call, yet callee parameter %r (%s) is advertised in %s'
+                                     % (star, q.name, q.kind.name, sig), None))
+                        break
                     if bad:
                         viol.append(('C05:advertised-after-taint',
                                      '%s is %s before the call, yet callee parameter %r (%s) is advertised in %s'
@@ -291,7 +298,33 @@ def wrapper(a=1, *args, **kwargs):
 '''
 
 
+NESTED_WITNESS = '''def callee(x, *, z):
+    return None
+def wrapper(**kwargs):
+    def helper():
+        kwargs['q'] = 1
+    helper()
+    return callee(1, **kwargs)
+'''
+
+
 def replay_known(ctx, k):
+    if k.get('key') == 'C05:nested-scope-mutation':
+        ns = PG.load_module(NESTED_WITNESS)
+        try:
+            w = ns['wrapper']
+            sig = sigtools.signature(w)
+            try:
+                sig.bind(z=2)
+            except TypeError:
+                return False
+            try:
+                w(z=2)
+            except TypeError:
+                return True
+            return False
+        finally:
+            PG.unload(ns)
     if k.get('key') == 'C05:hide-kwargs-named-pok':
         ns = PG.load_module(HIDE_WITNESS)
         try:
